@@ -127,3 +127,40 @@ theorem eval_jones (q qinv : R) (hq : q * qinv = 1) (l : Link) (signs : Array In
 example : (1 : Int) * 1 = 1 := by decide
 
 end Yuiv.C04
+
+namespace Yuiv.C04
+open Yuiv.KhRef
+variable {R : Type} [CommRing R]
+
+set_option linter.unusedVariables false in -- `hq` is not needed for this one
+/-- the executable Euler characteristic of the chain groups of the cube reference (`chiChain`, built from
+`KhRef.mkCube`, `Cube.gensAt`, `Cube.qDeg`) evaluates to `evalChi` for the diagram's own circle-count function —
+so, with `chi_chain_eq_jones` and `eval_jones`, the two executable coefficient lists have the same value at every
+invertible `q` of every commutative ring. -/
+theorem eval_chiChain (q qinv : R) (hq : q * qinv = 1) (l : Link) (signs : Array Int) :
+    LP.eval q qinv (fun k => (k : R)) (chiChain l signs) =
+      evalChi q qinv (crossingNum l) (signs.filter (· > 0)).size (signs.filter (· < 0)).size (circleCount l) := by
+  show ev q qinv (chiChain l signs) = _
+  unfold chiChain evalChi
+  dsimp only
+  rw [mkCube_n]
+  rw [ev_foldl_step q qinv _ (fun s => sumRange (2 ^ circleCount l s) (fun m =>
+      npow (-1 : R) ((signs.filter (· < 0)).size + popcount s (crossingNum l)) *
+        zpow q qinv ((((signs.filter (· > 0)).size : Int) - 2 * (signs.filter (· < 0)).size) + (-2 : Int) * popcount m (circleCount l s) + circleCount l s + popcount s (crossingNum l))))]
+  · rw [ev_nil]; rfl
+  · intro s hs acc
+    have hs' : s < 2 ^ crossingNum l := List.mem_range.mp hs
+    rw [mkCube_gensAt l s hs', ← Array.foldl_toList, Array.toList_map, Array.toList_range, List.foldl_map]
+    simp only [mkCube_qDeg l _ s _ hs']
+    rw [ev_foldl_addTerm, foldl_add_acc]
+    unfold sumRange
+    congr 1
+    apply congrArg (fun f => List.foldl f 0 (List.range (2 ^ circleCount l s)))
+    funext a m
+    rw [cast_sign_neg, npow_eq]
+
+theorem eval_chiChain_eq_eval_jones (q qinv : R) (hq : q * qinv = 1) (l : Link) (signs : Array Int) :
+    LP.eval q qinv (fun k => (k : R)) (chiChain l signs) = LP.eval q qinv (fun k => (k : R)) (jones l signs) := by
+  rw [eval_chiChain q qinv hq, eval_jones q qinv hq, chi_chain_eq_jones q qinv hq]
+
+end Yuiv.C04
